@@ -171,6 +171,11 @@ def run_check(prop, tier, seed, jobs):
             json.dump({"property": prop, "key": k, "msg": v["msg"], "detail": v["detail"], "case": v["case"], "tier": tier,
                        "seed": seed, "idx": v.get("idx"), "witnesses": vcounts.get(k)}, fh, indent=1, default=str)
         replay_paths.append(path)
+        if rank_ < 6 and os.environ.get("VERIF_MINIMISE", "1") == "1":
+            try:  # greedy shrinking of the history-like lists; bounded, best effort, never changes the verdict
+                subprocess.run([PY, "-B", "-m", "vmon.minimise", path], cwd=HERE, env=worker_env(), capture_output=True, timeout=180)
+            except Exception:
+                pass
         if rank_ < 10:
             lines.append(f"VIOLATION property={prop} replay={path}")
             lines.append(f"  key={k} witnesses={vcounts.get(k)} :: {v['msg'][:300]}")
